@@ -167,7 +167,7 @@ func TestC07(t *testing.T) {
 		c.Length = k + rapid.IntRange(0, 3).Draw(t, "extra_length")
 		return c07Case{c}
 	}, c07Run)
-	if ev.Thorough() {
+	if ev.Thorough() || ev.Cfg.Replay != "" {
 		// beyond the stated range of 8 required sets: 13 singleton sets
 		ev.Check(t, "c07_thirteen_sets", 1, func(t *rapid.T) c07Case {
 			c := oracle.CharSpec{Length: rapid.IntRange(14, 18).Draw(t, "length"), Allow: oracle.Digits}
